@@ -413,6 +413,9 @@ func (c *fctx) regionExprQuiet(e ast.Expr) (pre []string, term string, root *abs
 var mutatingMethods = map[string][]int{
 	"(" + modPath + "protocol/thrift.FastCodec).FastWriteNocopy": {0},
 	"(semtest/sem.Codec).WriteTo":                                {0}, // the translator's differential self-test
+	"(io.Reader).Read":                                           {0}, // phase 4: handed a window of a slice with capacity
+	"(semtest/sem.Feed).Read":                                    {0},
+	"(semtest/bad.src).Read":                                     {0},
 }
 
 func methodStoresInto(fn *types.Func, i int) bool {
